@@ -60,7 +60,7 @@ def scope_model(F, placement, conflict=False):
     (mstate['maps_have']), the cells live in the root frame (CELL_HOME) so that `get_mut` hands out a place that can be
     written through, and insert / remove update both - what an operation did to the maps is read off the final state,
     not off the primitives it happened to use."""
-    from absint import Sym, Ref, TOP, some, NONE, ok, err, std_oracle, chain
+    from absint import Sym, Ref, Agg, TOP, some, NONE, ok, err, std_oracle, chain
     map_idx = F.field_index(REG, "map")
     parent_idx = F.field_index(REG, "parent")
     order = ["self", "parent", "grandparent"]
@@ -92,12 +92,12 @@ def scope_model(F, placement, conflict=False):
                 return has
             if nm in ("get", "get_mut"):
                 return some(cell) if has else NONE
-            if nm == "remove":
+            if nm in ("remove", "remove_entry"):
                 if not has:
                     return NONE
                 v = interp.read_ref(env, cell)
                 interp.mstate["maps_have"] = tuple(x for x in have if x != sc)
-                return some(v)
+                return some(v) if nm == "remove" else some(Agg("tuple", None, None, [Sym("T::id"), v]))
             if nm == "insert" and len(args) == 3:
                 old = interp.read_ref(env, cell) if has else None
                 interp.write_ref(env, cell, args[2])
@@ -105,7 +105,31 @@ def scope_model(F, placement, conflict=False):
                     interp.mstate["maps_have"] = tuple(sorted(set(have) | {sc}, key=order.index))
                 return some(old) if has else NONE
             if nm == "entry":
-                return Sym("entry@" + sc)
+                # the std entry of that scope's map: occupied (the cell) or vacant - what is done through it is done to the map
+                return Agg("adt", "std::collections::hash::map::Entry", "Occupied" if has else "Vacant", [Sym(("occ@" if has else "vac@") + sc)])
+        if k.startswith("std::collections::hash::map::OccupiedEntry::") and isinstance(a0, Sym) and a0.tag.startswith("occ@"):
+            sc = a0.tag[4:]
+            nm = f.get("name")
+            cell = Ref(CELL_HOME[sc], [], frame="root")
+            have = interp.mstate.get("maps_have", holders)
+            if nm in ("get", "get_mut", "into_mut"):
+                return cell
+            if nm == "insert" and len(args) == 2:
+                old = interp.read_ref(env, cell)
+                interp.write_ref(env, cell, args[1])
+                return old
+            if nm in ("remove", "remove_entry"):
+                v = interp.read_ref(env, cell)
+                interp.mstate["maps_have"] = tuple(x for x in have if x != sc)
+                return v if nm == "remove" else Agg("tuple", None, None, [Sym("T::id"), v])
+        if k.startswith("std::collections::hash::map::VacantEntry::") and isinstance(a0, Sym) and a0.tag.startswith("vac@"):
+            sc = a0.tag[4:]
+            cell = Ref(CELL_HOME[sc], [], frame="root")
+            have = interp.mstate.get("maps_have", holders)
+            if f.get("name") == "insert" and len(args) == 2:
+                interp.write_ref(env, cell, args[1])
+                interp.mstate["maps_have"] = tuple(sorted(set(have) | {sc}, key=order.index))
+                return cell
         if f.get("name") in ("as_deref", "as_deref_mut") and f.get("self_adt") == "core::option::Option":
             return args[0]
         if k == "better_any::Tid::id":
